@@ -25,6 +25,9 @@ class ConfigData {
   bool SaveToStream(std::ostream& stream);
   bool LoadFromFile(const path& file_path, ConfigCompiler* compiler);
   bool SaveToFile(const path& file_path);
+  // writes "<file_path>.tmp" in the same directory, then renames it to
+  // file_path; the data is associated with file_path afterwards.
+  bool SaveToFileAtomically(const path& file_path);
   bool TraverseWrite(const string& path, an<ConfigItem> item);
   an<ConfigItem> Traverse(const string& path);
 
